@@ -72,6 +72,60 @@ static int do_seq() {
     return 0;
 }
 
+// seq1: like seq, but waiters carry a context (the "address" they wait on) and notifiers call notify_one_relaxed(predicate) for one address
+//   input: nwaiters nnotifiers, waiter contexts..., notifier addresses..., schedule
+static int do_seq1() {
+    std::vector<i128> c; Out o; Watchdog wd(20.0);
+    while (read_case(c)) {
+        wd.arm(&o);
+        int nw = (int)c[0], nn = (int)c[1];
+        concurrent_monitor mon;
+        std::vector<tnode> nodes(nw); std::vector<int> pc(nw + nn); std::vector<long> addr(nn);
+        for (int i = 0; i < nw; ++i) { pc[i] = WStart; nodes[i].my_context = (std::uintptr_t)(long)c[2 + i]; }
+        for (int i = 0; i < nn; ++i) { pc[nw + i] = NSet; addr[i] = (long)c[2 + nw + i]; }
+        bool cond[8] = {false};
+        auto ev = [&](int t, int code, long v) { o.put(t); o.put(code); o.put(v); };
+        for (size_t k = 2 + nw + nn; k < c.size(); ++k) {
+            int t = (int)c[k]; if (t < 0 || t >= nw + nn) continue;
+            if (t < nw) {
+                tnode& n = nodes[t];
+                switch (pc[t]) {
+                case WStart: {
+                    bool sk = n.my_initialized && n.my_skipped_wakeup;
+                    if (sk && n.sem < 1) { ev(t, 5, 0); break; }
+                    mon.prepare_wait(n); pc[t] = WCheck; ev(t, 1, sk ? 1 : 0); } break;
+                case WCheck: { bool cnd = cond[n.my_context & 7]; ev(t, 2, cnd ? 1 : 0); pc[t] = cnd ? WCancelDone : WCommit; } break;
+                case WCommit: {
+                    bool r = mon.commit_wait(n);
+                    if (r) { ev(t, 3, 1); if (n.blocked) pc[t] = WSleep; else { ev(t, 4, 1); pc[t] = WDone; } }
+                    else { ev(t, 3, 0); ev(t, 6, n.my_skipped_wakeup ? 1 : 0); pc[t] = WStart; } } break;
+                case WSleep: if (n.sem > 0) { n.wait(); ev(t, 4, 1); pc[t] = WDone; } else ev(t, 5, 1); break;
+                case WCancelDone: mon.cancel_wait(n); ev(t, 6, n.my_skipped_wakeup ? 1 : 0); pc[t] = WDone; break;
+                default: break;
+                }
+            } else {
+                long a = addr[t - nw];
+                switch (pc[t]) {
+                case NSet: cond[a & 7] = true; ev(t, 7, 1); pc[t] = NCheckEmpty; break;
+                case NCheckEmpty: { bool e = mon.my_waitset.empty(); ev(t, 8, e ? 1 : 0); pc[t] = e ? NDone : NLock; } break;
+                case NLock: {
+                    std::vector<long> before(nw); for (int i = 0; i < nw; ++i) before[i] = nodes[i].sem;
+                    mon.notify_one_relaxed([a](std::uintptr_t ctx) { return (long)ctx == a; });
+                    long who = -1; for (int i = 0; i < nw; ++i) if (nodes[i].sem != before[i]) who = i;
+                    ev(t, 9, who); pc[t] = NDone; } break;
+                default: break;
+                }
+            }
+        }
+        o.put(-7);
+        for (int i = 0; i < nw + nn; ++i) o.put((pc[i] == WDone || pc[i] == NDone) ? 1 : 0);
+        o.put((long)mon.my_epoch.load());
+        for (int i = 0; i < nw; ++i) if (nodes[i].my_is_in_list.load()) mon.cancel_wait(nodes[i]);
+        o.flush(); wd.disarm();
+    }
+    return 0;
+}
+
 static int do_mt(int T, unsigned seed, int rounds) {
     // T waiters and 1-2 notifiers per round on one monitor; flag set before notify; every waiter must come back
     Watchdog wd(30.0); Out o; wd.arm(&o);
@@ -139,6 +193,7 @@ static int do_bq(int cap, int nA, int nB, unsigned seed) {
 int main(int argc, char** argv) {
     std::string mode = argc > 1 ? argv[1] : "";
     if (mode == "seq") return do_seq();
+    if (mode == "seq1") return do_seq1();
     if (mode == "mt") return do_mt(atoi(argv[2]), (unsigned)atoi(argv[3]), atoi(argv[4]));
     if (mode == "enq") return do_enq(atoi(argv[2]), atoi(argv[3]));
     if (mode == "bq") return do_bq(atoi(argv[2]), atoi(argv[3]), atoi(argv[4]), (unsigned)atoi(argv[5]));
